@@ -31,7 +31,9 @@ func init() {
 			checkCompositeKey(c, p, S, "C18.R5")
 			checkFreshDecodeTargets(c, p, S, "C18.R5")
 			checkNoLastOffsetRead(c, p, S, "C18.R6")
-			res := runLocksFull(p, []guardSpec{{"Materializer", "collections", "mu"}, {"Materializer", "lastOffset", "mu"}, {"MemoryStore", "data", "mu"}}, map[string]bool{PkgState: true}, false, nil)
+			M := discoverMem(p)
+			M.report(c, "C18.R2")
+			res := runLocksFull(p, []guardSpec{{"Materializer", M.MatColl, M.MatMu}, {"Materializer", M.MatOffset, M.MatMu}, {"MemoryStore", M.StData, M.StMu}}, map[string]bool{PkgState: true}, false, nil)
 			n := lockObligations(c, res, "C18.R2", nil)
 			c.Floor("C18.R2", "guarded accesses in package state", n, 10)
 			c.Assume = append(c.Assume, "encoding/json semantics", "user Store[T] implementations honour Set/Delete/Clear")
